@@ -20,13 +20,24 @@ class Sim:
         p = st.alloc(self.size, 'Processor')
         self.off = {}
         # reference members: the accessor returns the referent, so plant marker pointers to learn the field offset
-        mark = st.alloc(self.size, 'marker')
+        mark = st.alloc(max(self.size, 1 << 20), 'marker')
         def plant(obj, lo, hi):
             for o_ in range(lo, hi, 8): st.objs[obj.obj].cells[o_] = (8, Ptr(mark.obj, o_))
         for name, k in F.items():
-            if name == 'out': continue
+            if name in ('out', 'memory'): continue
             st, q = E.run1('s_field', [p, k], st); self.off[name] = q.off
-        plant(p, 0, self.off['memory']); plant(p, self.off['memory'] + 4*self.memwords, self.size)
+        # memory: either an array inside the object or (after a refactoring) a pointer member to a heap block
+        rs = E.run('s_field', [p, F['memory']], st)
+        q = rs[0].val if rs and rs[0].kind == 'ret' else None
+        if isinstance(q, Ptr) and q.obj == p.obj:
+            self.heap_memory = False; self.off['memory'] = q.off
+            plant(p, 0, self.off['memory']); plant(p, self.off['memory'] + 4*self.memwords, self.size)
+        else:
+            self.heap_memory = True
+            plant(p, 0, self.size)
+            st, q = E.run1('s_field', [p, F['memory']], st)
+            if q.obj != mark.obj: raise Inconclusive("cannot locate the memory member of hexsim::Processor")
+            self.off['memory'] = q.off          # offset of the pointer member
         st, q = E.run1('s_field', [p, F['out']], st); self.off['out'] = q.off
         self.io_size = E.run1('io_size', [], st)[1]
         io = st.alloc(self.io_size, 'io'); self.io_off = {}
@@ -38,6 +49,16 @@ class Sim:
         return build.native('sim.cpp', extra=['-DNATIVE_DRIVER'])
     def engine(self):
         E = Engine(self.M); stubs.install(E)
+        if getattr(self, 'heap_memory', False):
+            # a heap block of exactly the memory size is the simulator's memory: its contents start as an arbitrary SMT array
+            # (what the allocator hands out), so that value-initialisation (or its absence) is visible
+            base_new = E.stubs['_Znam']
+            def new_(E_, st, a):
+                q = base_new(E_, st, a)
+                if is_c(a[0]) and a[0] == 4*self.memwords:
+                    st.objs[q.obj].regions.append(Region(0, 4, self.memwords, z3.Array(f'heapjunk!{q.obj}', z3.BitVecSort(32), z3.BitVecSort(32))))
+                return q
+            E.stubs['_Znam'] = new_; E.stubs['_Znwm'] = new_
         # std::to_string only feeds exception messages here: cut to an empty string (message text is outside every claim)
         E.prefix_stubs.append(('_ZNSt7__cxx119to_stringE', lambda E_, st, a: (stubs.Str(E_, st, a[0]).init_local(), None)[1]))
         return E
@@ -45,7 +66,11 @@ class Sim:
     def new_proc(self, st, mem_arr, over=None, name='Processor'):
         """raw (unconstructed) Processor object whose memory array is the SMT array mem_arr"""
         p = st.alloc(self.size, name); o = st.objs[p.obj]
-        o.regions.append(Region(self.off['memory'], 4, self.memwords, mem_arr, over))
+        if self.heap_memory:
+            m = st.alloc(4*self.memwords, 'memory-block'); st.objs[m.obj].regions.append(Region(0, 4, self.memwords, mem_arr, over))
+            o.cells[self.off['memory']] = (8, m)
+        else:
+            o.regions.append(Region(self.off['memory'], 4, self.memwords, mem_arr, over))
         return p
     def constructed_proc(self, E, st, mem_arr, over=None, maxc=0):
         """Processor built by its real constructor (so that members this harness does not know about hold what the
@@ -55,12 +80,23 @@ class Sim:
         E.stubs.setdefault('_ZNSt13basic_fstreamIcSt11char_traitsIcEEC1Ev', stubs.s_nop)
         rs = E.run('s_construct', [p, IN, OUT, maxc], st)
         if len(rs) != 1 or rs[0].kind != 'ret': raise Inconclusive(f"Processor constructor: {rs}")
-        r = rs[0].st.wobj(p.obj).regions[0]
+        st2 = rs[0].st
+        if self.heap_memory:
+            mp = E.load(st2, p.add(self.off['memory']), 8, True)
+            mo = st2.wobj(mp.obj)
+            if not mo.regions: mo.regions.append(Region(0, 4, self.memwords, mem_arr))
+            r = mo.regions[0]
+        else:
+            r = st2.wobj(p.obj).regions[0]
         r.arr = mem_arr; r.over = dict(over or {}); r._full = None
-        return rs[0].st, p
+        return st2, p
     def setf(self, E, st, p, name, v): E.store(st, p.add(self.off[name]), FW[name], v)
     def getf(self, E, st, p, name): return E.load(st, p.add(self.off[name]), FW[name])
-    def mem(self, st, p): return st.objs[p.obj].regions[0]
+    def mem(self, st, p):
+        if self.heap_memory:
+            mp = st.objs[p.obj].cells[self.off['memory']][1]
+            return st.wobj(mp.obj).regions[0]
+        return st.wobj(p.obj).regions[0]
 
 def io_cut_stubs(E, inbyte_fn):
     """cut at the HexSimIO boundary: output/input become events (byte, stream)"""
